@@ -36,8 +36,33 @@ def family_sys(rng, count):
         for s in range(1, n + 1):
             if rng.random() < 0.25:
                 c['entry'][s - 1] = gc.desc(sends=[(rng.choice([1, 2]), 0, 0)])
+        for s in range(1, n + 1):
+            if rng.random() < 0.25:
+                c['exit'][s - 1] = gc.desc(sends=[(rng.choice([2, 3]), 0, 0)])
         c['events'] = [1, 2, 3]
-        if gc.wf(c) and any(t['act']['sends'] for t in trans):
+        if len(out) % 2 == 1:
+            # a terminating chart: compound root with a final child, reached on event 2;
+            # the final state and the root send events when they are exited
+            r = gc.root(c)
+            if c['kind'][r - 1] == 'compound' and n < 5:
+                c = json.loads(json.dumps(c))
+                c['n'] = n + 1
+                c['kind'].append('final')
+                c['parent'].append(r)
+                c['initial'].append(0)
+                c['memory'].append(0)
+                for key in ('entry', 'exit'):
+                    c[key].append(dict(gc.D0))
+                for key in ('spre', 'spost', 'sinv'):
+                    c[key].append(0)
+                f = n + 1
+                c['exit'][f - 1] = gc.desc(sends=[(3, 0, 7)])
+                c['exit'][r - 1] = gc.desc(sends=[(1, rng.choice([0, 1]), 0)])
+                srcs2 = [s for s in range(1, n + 1) if c['kind'][s - 1] in gc.TRANS_KINDS and s != r]
+                if srcs2:
+                    c['trans'] = [t for t in c['trans'] if not (t['ev'] == 2)]
+                    c['trans'].append(gc.mk_trans(srcs2[0], f, 2, 0, 'none', 0, gc.desc(sends=[(2, 0, 0)])))
+        if gc.wf(c) and any(t['act']['sends'] for t in c['trans']):
             out.append(c)
     return out
 
